@@ -61,6 +61,11 @@ impl fmt::Debug for FsWatcherBuilder {
 fn id_of_path(id_builder: &mut IdBuilder, root: &Path, path: &Path) -> Option<OwnedDirEntry> {
     id_builder.reset();
 
+    // The root directory itself has the empty id.
+    if path == root {
+        return Some(OwnedDirEntry::Directory(id_builder.join()));
+    }
+
     for comp in path.parent()?.strip_prefix(root).ok()?.components() {
         match comp {
             path::Component::Normal(s) => id_builder.push(s.to_str()?)?,
